@@ -46,10 +46,12 @@ class EntropyProbe(object):
         np.random.default_rng = self._dr
 
 
-def make_params(pg, spec, ref):
+def make_params(pg, spec, ref, partial=False):
     """Build the parameters dict from a JSON spec: name -> number | ['frozen', dist, args] | ['tuple', sampler, args|kwargs]"""
     out = {}
     for nm in ref.param_names:
+        if partial and nm not in spec:
+            continue
         v = spec[nm]
         if isinstance(v, (int, float)):
             out[nm] = v
@@ -100,6 +102,9 @@ def execute(case):
         ode = build_model(pg, model, backend="lambda")
         if case.get("param_spec"):
             ode.parameters = make_params(pg, case["param_spec"], ref)
+            if case.get("param_respec"):
+                # a second assignment that re-defines some of the random parameters on a model that already holds some
+                ode.parameters = make_params(pg, case["param_respec"], ref, partial=True)
         elif ref.p:
             ode.parameters = list(case["theta"])
         ode.initial_values = (np.array(case["x0"], float), np_time(case["t0"]))
@@ -261,6 +266,18 @@ def gen_case(S, tier):
             break
         else:
             raise core.HarnessError("no random-parameter case")
+    if case.get("param_spec") and rng.random() < 0.3:
+        rnd = [nm for nm, v in case["param_spec"].items() if isinstance(v, list)]
+        if rnd:
+            respec = {}
+            for nm in rng.sample(rnd, rng.randint(1, len(rnd))):
+                v = case["param_spec"][nm]
+                th = v[2]["kw"]["scale"] * v[2]["args"][0] if v[0] == "frozen" else None
+                if v[0] == "frozen":
+                    respec[nm] = ["frozen", "gamma", {"args": [60.0], "kw": {"scale": th / 60.0}}]
+                else:
+                    respec[nm] = v
+            case["param_respec"] = respec
     ops = []
     for _ in range(rng.randint(1, 2) if tier != "thorough" else rng.randint(1, 4)):
         o = dict(op)
